@@ -117,16 +117,61 @@ def unflatten_after_T(ctx, shape, group):
     return ctx.done(ctx.AND(ok, ok2), ctx.observe(r[1]))
 
 
+def grouped_then_select(ctx, shape, group, how):
+    """an array with a grouped axis is indexed along *another* dimension (the group is left alone): the grouped axis keeps its
+    member axes, so that unflatten / reshape still restore them"""
+    a, ref, attrs = _build(ctx, shape)
+    dims = list(ref.dims)
+    names = tuple(dims[i] for i in group)
+    rest = [i for i in range(len(dims)) if i not in group]
+    o = rest[0]
+    f = a.flatten(names, insert=1 if o < min(group) else 0)
+    lo = ref.labels[o]
+    n = len(lo)
+    if how == 'scalar':
+        j = ctx.choice('j', n)
+        g = ctx.call(lambda: f.take(lo[j], axis=dims[o]))
+        sel = j
+    elif how == 'list':
+        g = ctx.call(lambda: f.take([lo[n - 1], lo[0]], axis=dims[o]))
+        sel = [n - 1, 0]
+    elif how == 'reverse':
+        g = ctx.call(lambda: f.ix[tuple(slice(None, None, -1) if d == dims[o] else slice(None) for d in f.dims)])
+        sel = list(reversed(range(n)))
+    elif how == 'sort':
+        g = ctx.call(lambda: f.sort_axis(axis=dims[o]))
+        from props.C07 import sorted_positions
+        sel = sorted_positions(lo)
+    else:
+        g = ctx.call(lambda: f.reindex_axis([lo[0]], axis=dims[o]))
+        sel = [0]
+    if g[0] != 'ok':
+        return ctx.done(False, g[1])
+    u = ctx.call(lambda: g[1].unflatten())
+    if u[0] != 'ok' or not isinstance(u[1], ctx.da.DimArray):
+        return ctx.done(False, [ctx.observe(g[1]), u[1] if u[0] != 'ok' else ctx.observe(u[1])])
+    full = [list(range(m)) for m in shape]
+    full[o] = sel
+    exp = ref.select(full)
+    ud = list(u[1].dims)
+    if sorted(ud) != sorted(exp.dims):
+        return ctx.done(False, [ctx.observe(g[1]), ctx.observe(u[1])])
+    ok = same(ctx, u[1], exp.transpose([list(exp.dims).index(d) for d in ud]), attrs=attrs)
+    r2 = ctx.call(lambda: g[1].reshape(ud))
+    ok2 = r2[0] == 'ok' and same(ctx, r2[1], exp.transpose([list(exp.dims).index(d) for d in ud]))
+    return ctx.done(ctx.AND(ok, ok2), [ctx.observe(g[1]), ctx.observe(u[1])])
+
+
 def reshape_case(ctx, shape, target, lkinds=None, transpose=True):
     """target: list of entries; each entry is a list of dim indices (grouped when more than one) or the str 'NEW'"""
     a, ref, attrs = _build(ctx, shape, lkinds=lkinds)
     dims = list(ref.dims)
     names = []
     for t in target:
-        names.append('new' if t == 'NEW' else ','.join(dims[i] for i in t))
+        names.append({'NEW': 'new', 'NEW2': 'new2'}[t] if isinstance(t, str) else ','.join(dims[i] for i in t))
     kw = {} if transpose else {'transpose': False}
     r = ctx.call(lambda: a.reshape(names, **kw))
-    used = [i for t in target if t != 'NEW' for i in t]
+    used = [i for t in target if not isinstance(t, str) for i in t]
     dropped = [i for i in range(len(dims)) if i not in used]
     if any(shape[i] != 1 for i in dropped):
         # dropping a non-singleton dimension must be refused
@@ -138,7 +183,7 @@ def reshape_case(ctx, shape, target, lkinds=None, transpose=True):
     # expected: cells looked up by label coordinates
     newlabels = []
     for t in target:
-        if t == 'NEW':
+        if isinstance(t, str):
             newlabels.append([None])
         elif len(t) == 1:
             newlabels.append(ref.labels[t[0]])
@@ -148,7 +193,7 @@ def reshape_case(ctx, shape, target, lkinds=None, transpose=True):
     for p in itertools.product(*[range(len(l)) for l in newlabels]):
         src = [0] * len(dims)
         for t, x in zip(target, p):
-            if t == 'NEW':
+            if isinstance(t, str):
                 continue
             if len(t) == 1:
                 src[t[0]] = x
@@ -161,7 +206,7 @@ def reshape_case(ctx, shape, target, lkinds=None, transpose=True):
     res = r[1]
     oks = [same(ctx, res, exp, attrs=attrs)]
     # and back again: reshape to the original (plain) dims restores the array (dropped singleton labels aside)
-    if not dropped and 'NEW' not in target:
+    if not dropped and not any(isinstance(t, str) for t in target):
         b = ctx.call(lambda: res.reshape(dims))
         oks.append(b[0] == 'ok' and same(ctx, b[1], ref))
     return ctx.done(ctx.AND(*oks), ctx.observe(res))
@@ -226,11 +271,17 @@ def templates():
         ([2, 1, 3], [[0], [2]]), ([2, 1, 3], [[2, 0]]), ([2, 1, 3], [[0, 1], [2]]), ([1, 2, 1], [[1]]), ([1, 2, 1], [[2], [1]]), ([1, 2, 1], [[1], [0]]),
         ([2, 1, 2, 3], [[3, 0], [2]]), ([2, 1, 2, 3], [[0, 1], [2, 3]]), ([2, 1, 2, 3], [[3], [1, 2], 'NEW', [0]]), ([2, 2, 2, 2], [[0, 3], [2, 1]]),
         ([2, 3], [[0]]), ([3], [[0], 'NEW']), ([3], ['NEW', [0]]), ([2, 3, 2], [[2], [1], [0]]),
+        # two groups followed / preceded / separated by a further dimension
+        ([2, 2, 2, 1], [[0, 1], [2, 3], 'NEW']), ([2, 2, 2, 1], [[1, 0], [3, 2], 'NEW']), ([2, 2, 2, 1], ['NEW', [0, 1], [2, 3]]), ([2, 2, 2, 1], [[0, 1], 'NEW', [2, 3]]),
+        ([2, 2, 1, 2], [[0, 1], [2], [3]]), ([2, 1, 2, 2], [[0, 1], [2, 3], 'NEW', 'NEW2']),
     ]
     for k, (sh, target) in enumerate(R):
         add('reshape-%d-%s' % (k, 'x'.join(map(str, sh))), 'reshape_case', cost=0.3, shape=sh, target=target)
     for sh, group in (([2, 3, 2], [1, 2]), ([2, 3, 2], [0, 1]), ([3, 2, 2], [2, 1]), ([2, 3], [0, 1])):
         add('unflatten-after-T-%s-g%s' % ('x'.join(map(str, sh)), ''.join(map(str, group))), 'unflatten_after_T', cost=0.3, shape=sh, group=group)
+    for how in ('scalar', 'list', 'reverse', 'sort', 'reindex'):
+        for sh, group in (([2, 2, 3], [1, 2]), ([3, 2, 2], [1, 2]), ([2, 3, 2], [0, 2])):
+            add('grouped-then-%s-%s-g%s' % (how, 'x'.join(map(str, sh)), ''.join(map(str, group))), 'grouped_then_select', cost=0.5, shape=sh, group=group, how=how)
     add('reshape-notranspose-ok', 'reshape_case', cost=0.3, shape=[2, 3, 2], target=[[0, 1], [2]], transpose=False)
     add('reshape-notranspose-refused', 'reshape_case', cost=0.3, shape=[2, 3, 2], target=[[1, 0], [2]], transpose=False)
     add('reshape-mixed-kinds', 'reshape_case', cost=0.3, shape=[2, 2], target=[[1, 0]], lkinds=['i', 'U'])
